@@ -24,6 +24,9 @@ ATOMS = [0, 1, 2, -7, "a", "b", "", "é", None, True, 1.5, [1, 2], {"k": 1}, ("t
 OPT_KEYS = ["memory", "vcpus", "executor", "cache_scope", "check_valid", "limits", "x"]
 EXPORT_KEYS = ["prov", "cache_scope", "executor", "memory", "é"]
 NAMES = ["ns.f", "f", "redun.cond", "a.b.c", "add", "getitem", "redun.seq"]
+# every lazy operator of redun.expression (checked against the live registry by the oracle)
+OPS = ["add", "radd", "sub", "rsub", "mul", "rmul", "div", "rdiv", "and", "rand", "or", "ror", "eq", "ne", "lt", "le", "gt",
+       "ge", "getitem", "getattr", "call"]
 
 
 # ------------------------------------------------------------------ specs <-> real expressions
@@ -75,7 +78,7 @@ class Gen:
         k = kind or r.choice(["task", "task", "scheduler", "scheduler", "simple", "value"])
         if k == "value":
             return {"kind": k, "value": self.atom()}
-        s = {"kind": k, "name": r.choice(NAMES), "args": [self.arg(depth) for _ in range(r.randint(0, 3))],
+        s = {"kind": k, "name": r.choice(OPS) if k == "simple" and r.random() < 0.8 else r.choice(NAMES), "args": [self.arg(depth) for _ in range(r.randint(0, 3))],
              "kwargs": {kk: self.arg(depth) for kk in r.sample(["p", "q", "a", "é"], r.randint(0, 2))}}
         if k != "simple":
             s["options"] = r.choice([None, {}, self.options(), self.options()])
@@ -238,7 +241,7 @@ _WF = {}
 
 def wf_tasks():
     """A fixed family of tasks interpreting a JSON workflow spec (defined once per process)."""
-    if _WF:
+    if "leaf" in _WF:
         return _WF
     from redun import task
     from redun.scheduler import cond
@@ -362,13 +365,78 @@ def run_workflow(spec):
     return bad, len(rec.seen)
 
 
+# ------------------------------------------------------------------ lazy operators
+OPERAND_X = [{"kind": "task", "name": "c18_wf.src", "args": ["b"], "kwargs": {}, "options": None, "export": None, "length": None},
+             {"kind": "value", "value": 3},
+             {"kind": "simple", "name": "getitem", "args": [{"__expr__": {"kind": "value", "value": [[1], 2]}}, 0], "kwargs": {}}]
+OPERAND_V = ["a", [2], 5, 0, True, "", {"__tuple__": [1]}]
+SYNTAX = {"add": lambda x, v: x + v, "radd": lambda x, v: v + x, "sub": lambda x, v: x - v, "rsub": lambda x, v: v - x,
+          "mul": lambda x, v: x * v, "rmul": lambda x, v: v * x, "div": lambda x, v: x / v, "rdiv": lambda x, v: v / x,
+          "and": lambda x, v: x & v, "rand": lambda x, v: v & x, "or": lambda x, v: x | v, "ror": lambda x, v: v | x,
+          "eq": lambda x, v: x == v, "ne": lambda x, v: x != v, "lt": lambda x, v: x < v, "le": lambda x, v: x <= v,
+          "gt": lambda x, v: x > v, "ge": lambda x, v: x >= v, "getitem": lambda x, v: x[v]}
+
+
+def call_key(e):
+    """the call an expression denotes, computed from the Python object alone (the model's same_call):
+    class, task/operator name, argument hashes, keyword argument hashes, options, exported options"""
+    from redun.expression import ValueExpression
+    from redun.value import get_type_registry
+    reg = get_type_registry()
+    if isinstance(e, ValueExpression):
+        return (type(e).__name__, reg.get_hash(e.value))
+    d = e.__dict__
+    return (type(e).__name__, d.get("func_name", d.get("task_name")), tuple(reg.get_hash(a) for a in e.args),
+            tuple(sorted((k, reg.get_hash(v)) for k, v in e.kwargs.items())),
+            repr(sorted((d.get("_options") or {}).items(), key=repr)), tuple(sorted(d.get("_export_options") or ())))
+
+
+# operands on which the operator families are not commutative, and names evaluated together under one job
+MERGE_CASES = [("b", "a", ["add", "radd"]), ("b", "a", ["radd", "add"]), ([1], [2], ["add", "radd"]),
+               (3, 5, ["or", "ror"]), (3, 5, ["ror", "or"]), (3, 5, ["and", "rand"]), (0, 5, ["rand", "and"]),
+               (8, 2, ["sub", "rsub"]), (8, 2, ["rdiv", "div"]), (8, 2, ["lt", "gt", "le", "ge", "eq", "ne"]),
+               ("ab", 2, ["mul", "rmul", "add"] if False else ["mul", "rmul"]), ([1, 2], 1, ["getitem", "eq"]),
+               (3, 5, ["add", "radd", "mul", "rmul", "and", "rand", "or", "ror", "sub", "rsub"])]
+
+
+def run_operator_merge(xv, v, names):
+    """One job returns [op(src(xv), v) for op in names] built on ONE shared operand tuple; every element must be
+    what the operator's own registered function gives. -> (result, expected)"""
+    from redun import Scheduler, task
+    from redun.config import Config
+    from redun.expression import SimpleExpression, get_lazy_operation
+    if "opsrc" not in _WF:
+        @task(namespace="c18_wf", name="opsrc", cache=False)
+        def opsrc(v):
+            return v
+
+        @task(namespace="c18_wf", name="opmain", cache=False)
+        def opmain(xv, v, names):
+            x = opsrc(xv)
+            return [SimpleExpression(n, (x, v)) for n in names]
+        _WF.update(opsrc=opsrc, opmain=opmain)
+    expected = [get_lazy_operation(n)(xv, v) for n in names]
+    d = scratch_dir("rv_c18_")
+    cwd = os.getcwd()
+    try:
+        os.chdir(d)
+        sched = Scheduler(config=Config({"backend": {"db_uri": "sqlite:///:memory:"}}))
+        sched.load()
+        res = sched.run(_WF["opmain"](xv, v, names))
+    finally:
+        os.chdir(cwd)
+        shutil.rmtree(d, ignore_errors=True)
+    return res, expected
+
+
 class Check(PropertyCheck):
     id = "C18"
     module = "Props.C18"
     extra_modules = ["Base.Lit"]
     theorems = ["C18_same_hash_same_call_fixed", "C18_same_hash_same_call_shipped_partial", "C18_same_positional_arguments",
                 "C18_merge_only_same_call_fixed", "C18_scheduler_options_invisible_shipped", "C18_pickle_roundtrip",
-                "C18_scheduler_options_refuted", "C18_nonvacuous"]
+                "C18_scheduler_options_refuted", "C18_simple_name_map_collides", "C18_simple_name_map_refuted",
+                "C18_nonvacuous"]
     allowed_axioms = []
     section_premises = [
         "H_inj: the truncated SHA-512 behind redun.hashing.Hash.hexdigest has no collision on the pre-images that occur",
@@ -387,9 +455,9 @@ class Check(PropertyCheck):
 
     def translate(self):
         try:
-            text, _, self.ve = tr_hash_expr.translate(pins=PINS)
+            text, _, self.ve, self.nm = tr_hash_expr.translate(pins=PINS)
         except astutil.TranslateError as e:
-            self.ve = None
+            self.ve = self.nm = None
             raise TranslateError(str(e))
         GEN.mkdir(exist_ok=True)
         p = GEN / "C18Gen.v"
@@ -405,8 +473,14 @@ class Check(PropertyCheck):
             from redun.scheduler import cond
             ve = "AsShipped" if cond.options(cache_scope="NONE")(True, 1, 2).get_hash() == cond(True, 1, 2).get_hash() \
                 else "Fixed"
+        nm = getattr(self, "nm", None) or []
+        nm_coq = "[" + "; ".join(f"({cq_str(a)}, {cq_str(c)})" for a, c in nm) + "]" if nm else "(@nil (bytes * bytes))"
+        if getattr(self, "nm", None) is not None:
+            self.ob("tie", "SimpleExpression._calc_hash hashes the operator name verbatim (the theorems are about the empty "
+                    f"name map; extracted map: {nm})", not nm,
+                    "a replaced operator name collides with the name it is mapped to: C18_simple_name_map_collides")
         g = Gen(self.rng)
-        n = 500 if self.tier == "quick" else 8000
+        n = 360 if self.tier == "quick" else 8000
         terms, descr = [], []
         for i in range(n):
             s = g.spec()
@@ -416,7 +490,7 @@ class Check(PropertyCheck):
                 with HashRecorder() as rec:
                     h = e._calc_hash()
                 lit0 = cq_expr(e, values)
-                checks = [f"bytes_eq (@expr_calc Ht bytes vh pk VE {lit0}) {cq_str(h)}"]
+                checks = [f"bytes_eq (@expr_calc Ht bytes vh pk VE NM {lit0}) {cq_str(h)}"]
                 dicts = [e.__dict__.get("_options", {})]
                 if i % 2 == 0:
                     # pickle round trip with per-run bookkeeping set
@@ -443,7 +517,7 @@ class Check(PropertyCheck):
             self.count(descr[-1] if s["kind"] != "value" else None)
             self.sample({"spec": s, "hash": h}, 3)
         ok, failing, diags = run_bool_cases("C18", ["Base.Decimal", "Base.Lit", "Model.Bencode", "Model.TaskHash",
-                                                    "Model.ExprHash"], f"Definition VE := {ve}.\n", terms, chunk=60)
+                                                    "Model.ExprHash"], f"Definition VE := {ve}.\nDefinition NM : list (bytes * bytes) := {nm_coq}.\n", terms, chunk=60)
         self.ob("correspondence", f"model (SchedulerExpression layout {ve}) == redun expression hashes and pickle round "
                 f"trips on {len(terms)} generated expressions", ok and not failing and len(terms) > n // 2,
                 "\n".join(diags) + "".join(f"\nmismatch: {descr[i]}" for i in failing[:6]))
@@ -605,6 +679,52 @@ class Check(PropertyCheck):
             why = self.check_roundtrip(s)
             if why:
                 self.add("roundtrip:" + json.dumps(s, sort_keys=True), "pickle round trip: " + why, {"kind": "roundtrip", "spec": s})
+        # 3b. every lazy operator (incl. all reflected ones, comparisons, getitem/getattr/call) over SHARED operand
+        #     tuples, so that only the operator name differs: equal hash => same call (computed from the objects)
+        from redun.expression import _lazy_operation_registry
+        live = sorted(_lazy_operation_registry)
+        self.ob("oracle", f"the operator list of the generator is the live registry of redun.expression ({len(live)} operators)",
+                live == sorted(OPS), f"registry: {live}")
+        for xs in OPERAND_X:
+            for v in OPERAND_V:
+                by_hash = {}
+                for name in sorted(set(live) | set(OPS)):
+                    s = {"kind": "simple", "name": name, "args": [{"__expr__": xs}, v], "kwargs": {}}
+                    n += 1
+                    try:
+                        e = build(s)
+                        if name in SYNTAX:      # the operator syntax really produces this operand tuple and name
+                            try:
+                                ee = SYNTAX[name](build(xs), build({"kind": "value", "value": v}).value)
+                                self.stat("operator_syntax", "same-call" if call_key(ee) == call_key(e) else "DIFFERENT:" + name)
+                            except Exception:  # noqa
+                                self.stat("operator_syntax", "unsupported:" + name)
+                        h, key = e.get_hash(), call_key(e)
+                        h2 = pickle.loads(__import__("redun.utils", fromlist=["pickle_dumps"]).pickle_dumps(e)).get_hash()
+                    except Exception as ex:  # noqa
+                        self.stat("oracle_skipped", "operator:" + type(ex).__name__)
+                        continue
+                    for hh in {h, h2}:
+                        for (s0, key0) in by_hash.get(hh, []):
+                            if key0 != key:
+                                self.add(f"same-hash:operator:{s0['name']}/{name}:" + json.dumps([xs, v], sort_keys=True),
+                                         f"SimpleExpression {s0['name']}(x, {v!r}) and {name}(x, {v!r}) over the same operands "
+                                         f"have the same hash {hh[:8]}" + (" after a pickle round trip" if hh != h else ""),
+                                         {"kind": "pair", "mutation": "operator", "a": s0, "b": s})
+                    by_hash.setdefault(h, []).append((s, key))
+        # 3c. ... and reached from one job they are evaluated independently (non-commutative operands)
+        for xv, v, names in MERGE_CASES:
+            n += 1
+            try:
+                res, exp = run_operator_merge(xv, v, names)
+            except Exception as ex:  # noqa
+                self.stat("oracle_skipped", "opmerge:" + type(ex).__name__)
+                continue
+            self.stat("operator_merge", "independent" if res == exp else "MERGED")
+            if res != exp:
+                self.add(f"merged:operators:{'/'.join(names)}:" + json.dumps([xv, v]),
+                         f"one job returning [{', '.join(f'{nm_}(x, {v!r})' for nm_ in names)}] with x = {xv!r} evaluates to {res}; "
+                         f"evaluated independently the operators give {exp}", {"kind": "opmerge", "x": xv, "v": v, "names": names})
         # 4. expressions evaluated by the real Scheduler (exporting parents, nesting): nothing may change an
         #    expression's options / exported options after construction, so that the cached hash stays the hash of
         #    the call; smallest workflows first
@@ -650,6 +770,10 @@ class Check(PropertyCheck):
             why = self.check_roundtrip(r["spec"])
             print("replay:", why or "round trip holds now")
             return 1 if why else 0
+        if r.get("kind") == "opmerge":
+            res, exp = run_operator_merge(r["x"], r["v"], r["names"])
+            print(f"replay: one job returns {res}; independently evaluated: {exp}:", "still merged" if res != exp else "holds now")
+            return 1 if res != exp else 0
         if r.get("kind") == "workflow":
             bad, k = run_workflow(r["spec"])
             print(f"replay: {k} expressions constructed;", "; ".join(bad) if bad else "no expression was changed by the run")
